@@ -14,3 +14,4 @@ T=$(mktemp -d /var/tmp/realrepro.XXXX); go build -tags verif -o $T/nq_vanish ./c
 echo "== nq_vanish (expect: VANISHED)"; $T/nq_vanish | tail -2; rm -rf $T
 echo "== pop clipped (expect: FAIL with POP-CLIPPED)"; REPLAY_KNOWN=1 go test -count=1 -run TestKnownPopClipped . 2>&1 | grep -E "POP-CLIPPED|^ok|^FAIL" | head -3
 echo "== pop during render delay (expect: FAIL with POP-DELAY)"; REPLAY_KNOWN=1 go test -count=1 -run TestKnownPopDuringRenderDelay . 2>&1 | grep -E "POP-DELAY|^ok|^FAIL" | head -3
+echo "== Add while Wait (expect: FAIL with ADD-WAIT, or a process crash 'WaitGroup misuse')"; REPLAY_KNOWN=1 go test -count=1 -run TestKnownAddWhileWait . 2>&1 | grep -E "ADD-WAIT|WaitGroup|^ok|^FAIL" | head -3
